@@ -322,9 +322,6 @@ func (g *jsgen) stmt(c *jctx, depth int, ind string) string {
 			g.features["let-const"]++
 			return fmt.Sprintf("%s%s %s = %s;\n", ind, g.r.Pick([]string{"let", "const"}), n, g.newID())
 		case 2: // var (possibly inside extra blocks: hoisting through blocks)
-			if c.inWith {
-				continue // a var declared inside a with body: recorded findings (pinning / parameter merge)
-			}
 			n := g.capOrName()
 			if !c.sc.canVar(n) {
 				continue
@@ -346,6 +343,9 @@ func (g *jsgen) stmt(c *jctx, depth int, ind string) string {
 			n := g.capOrName()
 			if !c.sc.canLex(n) || !c.sc.canVar(n) {
 				continue
+			}
+			if !g.module && !c.strict && !c.sc.isFunc && c.sc.varTarget().params[n] {
+				continue // block function named like a parameter that the body may also re-declare with var: recorded finding
 			}
 			if c.sc.isFunc {
 				c.sc.addVar(n)
@@ -416,9 +416,6 @@ func (g *jsgen) stmt(c *jctx, depth int, ind string) string {
 			g.features["for"]++
 			fs := newScope(c.sc, false)
 			kind := g.r.Intn(3)
-			if kind == 2 && c.inWith {
-				kind = 1
-			}
 			if kind == 2 {
 				if !c.sc.canVar(n) {
 					continue
@@ -547,6 +544,9 @@ func (g *jsgen) stmt(c *jctx, depth int, ind string) string {
 				}
 				if !c.sc.canVar(n) {
 					continue // an enclosing block (catch parameter, let, class) binds the name: Annex B corner, recorded finding
+				}
+				if c.sc.varTarget().params[n] {
+					continue // see above
 				}
 				if c.sc.canVar(n) {
 					c.sc.addVar(n)
